@@ -17,13 +17,15 @@ import functools
 from typing import Any
 
 from vlib import core, sers, streamdrive as sd
+from vlib import jraw  # ---- raw JSON framer ----
 
 ID = "C02"
 CLAIMED = True
 TITLE = "Parsing depends only on the bytes; one bad frame = one error"
 REQUIRED_THEOREMS = ["C02_sep_copy_chunking_independent", "C02_sep_copy_two_chunkings", "C02_one_item_per_frame",
                      "C02_sep_buffered_chunking_independent", "C02_sep_paths_agree",
-                     "C02_sep_copy_resume_after_limit", "C02_sep_copy_resume_then_decode", "C02_sep_buffered_resume_after_limit"]
+                     "C02_sep_copy_resume_after_limit", "C02_sep_copy_resume_then_decode", "C02_sep_buffered_resume_after_limit",
+                     "C02_jraw_chunking_independent_partial", "C02_jraw_one_item_per_document"]  # ---- raw JSON framer ----
 LEVEL_TEXT = (
     "Machine-checked proof (Lean 4): the modelled consumer over a separator framer equals frame-by-frame decoding of "
     "the accumulated bytes for every chunking of a stream that decodes without size error, and after a size rejection "
@@ -32,7 +34,8 @@ LEVEL_TEXT = (
 )
 LEVEL_NOTE = (
     "Trusted: Lean kernel + standard axioms; model tied to code by sampled correspondence; payload codec is a parameter; "
-    "raw JSON / file-based framers are covered by C01/C06/C07 runs, not by this check's theorems."
+    "raw JSON framer: model JRaw + theorems C02_jraw_* (chunking independence proved for streams without optional whitespace "
+    "between documents, see docs/JRAW.md); file-based framers are covered by C01/C06/C07 runs, not by this check's theorems."
 )
 TECHNIQUE = "Lean 4 theorems (chunking independence via refinement to byte-level spec; resumption lemma) + differential correspondence + reference-decoder oracle"
 TRUSTED_BASE = [
@@ -59,6 +62,8 @@ def _proto(case):
 
 
 def run_real(case: dict) -> list[str]:
+    if case.get("jraw"):  # ---- raw JSON framer ----
+        return jraw.run_real(case, _aux)
     frames = _frames(case)
     stream = b"".join(frames)
     proto = _proto(case)
@@ -119,6 +124,8 @@ def _item_bytes(case: dict, line: str) -> bytes | None:
 
 
 def oracle(case: dict, real: list[str]) -> str | None:
+    if case.get("jraw"):  # ---- raw JSON framer ----
+        return jraw.oracle(case, real)
     if "crashed" in real:
         return "RuntimeError escaped from the consumer (write buffer exhausted)"
     spec = case["spec"]
@@ -174,6 +181,8 @@ def oracle(case: dict, real: list[str]) -> str | None:
 
 
 def nontrivial(case: dict, real: list[str]) -> str | None:
+    if case.get("jraw"):  # ---- raw JSON framer ----
+        return jraw.nontrivial(case, real)
     kinds = {f["kind"] for f in case["frames"]}
     extra = kinds - {"ok"}
     if not extra:
@@ -182,6 +191,9 @@ def nontrivial(case: dict, real: list[str]) -> str | None:
 
 
 def shrink(case: dict):
+    if case.get("jraw"):  # ---- raw JSON framer ----
+        yield from jraw.shrink(case)
+        return
     fr = case["frames"]
     for i in range(len(fr)):
         if len(fr) > 1:
@@ -198,6 +210,8 @@ def shrink(case: dict):
 
 
 def known_key(case: dict, real: list[str], why: str) -> str:
+    if case.get("jraw"):  # ---- raw JSON framer ----
+        return "ser=jsonraw,path=copy"
     kinds = sorted({f["kind"] for f in case["frames"]})
     return f"path={case['path']},kinds={'+'.join(kinds)}"
 
@@ -279,6 +293,7 @@ def corpus() -> list[dict]:
     out.append({"spec": {"k": "autosep", "sep": "616162", "limit": 8, "check": True}, "path": "buffered",
                 "frames": [{"kind": "bad", "payload": "ff61"}, {"kind": "band", "payload": "6262626262"}, {"kind": "ok", "payload": "62"}],
                 "cuts": [1], "hint": 4})
+    out += jraw.corpus_stream_cases()  # ---- raw JSON framer ----
     return out
 
 
@@ -286,6 +301,10 @@ def generate(rng, tier: str, boost: int):
     n = (3000 if tier == "quick" else 80000) * boost
     for _ in range(n):
         yield _gen_case(rng, tier)
+    # ---- raw JSON framer ----
+    for _ in range((1200 if tier == "quick" else 40000) * boost):
+        yield jraw.gen_stream_case(rng)
+    # ---- end raw JSON framer ----
     if tier == "thorough":
         yield from _band_enumeration()
 
@@ -310,3 +329,9 @@ def _band_enumeration():
 
 def after_batch() -> None:
     _aux.clear()
+
+
+# ---- raw JSON framer ----
+def extra_coverage(stats) -> dict:
+    return {"model_runs_by_framer": dict(sorted(sers.MODEL_RUNS.items()))}
+# ---- end raw JSON framer ----
